@@ -553,7 +553,63 @@ func propExtra(prop, tier string, seed int, rep *checkReport) map[string]interfa
 	if prop == "C20" {
 		return boundedC20(tier, seed, rep)
 	}
+	if prop == "C16" {
+		return boundedC16(rep)
+	}
 	return nil
+}
+
+// boundedC16: the real Op.Has / Event.Has / Op.String / Event.String run exhaustively over the low 16 bits of Op
+// (plus sampled high bits, probe sets and names) against an oracle written from the documentation. A companion of
+// the proof, labelled bounded: it also decides the property when a rewrite of these functions uses a construct the
+// generator does not model (the proof is then UNDECIDED, this is not).
+func boundedC16(rep *checkReport) map[string]interface{} {
+	dir, err := os.MkdirTemp("", "c16bounded.")
+	if err != nil {
+		rep.undecided = append(rep.undecided, "bounded C16: "+err.Error())
+		return nil
+	}
+	defer os.RemoveAll(dir)
+	ov := filepath.Join(dir, "ov.json")
+	b, _ := json.Marshal(map[string]interface{}{"Replace": map[string]string{
+		filepath.Join(repoDir(), "verif_c16_bounded_test.go"): filepath.Join(verifRoot(), "bounded", "c16", "verif_c16_bounded_test.go.txt")}})
+	os.WriteFile(ov, b, 0o644)
+	cmd := exec.Command("go", "test", "-overlay", ov, "-vet=off", "-count=1", "-v", "-timeout", "300s", "-run", "^TestVerifBoundedC16$", ".")
+	cmd.Dir = repoDir()
+	cmd.Env = append(os.Environ(), "GOFLAGS=-mod=mod", "GOPROXY=off", "GOSUMDB=off", "GOTOOLCHAIN=local")
+	out, _ := cmd.CombinedOutput()
+	var sum map[string]interface{}
+	for _, ln := range strings.Split(string(out), "\n") {
+		if i := strings.Index(ln, "C16BOUNDED "); i >= 0 {
+			json.Unmarshal([]byte(ln[i+len("C16BOUNDED "):]), &sum)
+		}
+	}
+	if sum == nil {
+		rep.undecided = append(rep.undecided, "bounded C16 companion did not run: "+firstLines(string(out), 6))
+		return nil
+	}
+	res := map[string]interface{}{"bounded": map[string]interface{}{
+		"label":   "BOUNDED (not counted as proved): the real functions executed exhaustively over the low 16 bits of Op, sampled high-bit patterns, 39 probe sets for Has and a table of event names",
+		"covers":  "Op.Has, Event.Has, Op.String (text and injectivity on the defined operations), Event.String",
+		"summary": sum,
+	}}
+	if fs, ok := sum["failures"].([]interface{}); ok && len(fs) > 0 {
+		evDir := filepath.Join(verifRoot(), "evidence")
+		if d := os.Getenv("VERIF_EVIDENCE_DIR"); d != "" {
+			evDir = d
+		}
+		rdir := filepath.Join(evDir, "replay", "C16")
+		os.MkdirAll(rdir, 0o755)
+		for i, f := range fs {
+			path := filepath.Join(rdir, fmt.Sprintf("bounded_%d.replay.json", i))
+			b, _ := json.MarshalIndent(map[string]interface{}{"property": "C16", "obligation": "bounded/C16 companion", "failing_input": f,
+				"reproduced_on_real_code": true, "how": "go test -overlay (bounded/c16/verif_c16_bounded_test.go.txt injected into /repo's package) -run TestVerifBoundedC16"}, "", " ")
+			os.WriteFile(path, b, 0o644)
+			rep.violations = append(rep.violations, fmt.Sprintf("VIOLATION property=C16 replay=%s", path))
+			fmt.Printf("bounded C16 failure: %v\n", f)
+		}
+	}
+	return res
 }
 
 // boundedC20: exhaustive small-scope check of the parts of diff.go outside the verified subset
